@@ -4,6 +4,27 @@ import TunnoxModel.Proofs.Src
 namespace Tunnox.C12
 open Gen Gen.iocopy.UDP
 
+/-! ### running a completion phase cheaply -/
+
+theorem foldl_replicate_stable {σ τ : Type} (f : σ → τ → σ) (t : τ) (s : σ) (h : f s t = s) :
+    ∀ k, (List.replicate k t).foldl f s = s := by
+  intro k
+  induction k with
+  | zero => rfl
+  | succ k ih => rw [List.replicate_succ, List.foldl_cons, h, ih]
+
+theorem repeatStep_eq {σ τ : Type} [DecidableEq σ] (f : σ → τ → σ) (t : τ) :
+    ∀ (n : Nat) (s : σ), repeatStep (fun s => f s t) n s = (List.replicate n t).foldl f s := by
+  intro n
+  induction n with
+  | zero => intro s; rfl
+  | succ n ih =>
+    intro s
+    unfold repeatStep
+    by_cases h : f s t = s
+    · rw [if_pos h, foldl_replicate_stable f t s h]
+    · rw [if_neg h, ih, List.replicate_succ, List.foldl_cons]
+
 /-! ### scripted reads -/
 
 /-- Size of a script: every Read removes a chunk or a non-empty piece of one. -/
@@ -1622,6 +1643,15 @@ theorem udp_returned (c : UdpCase) (hwf : ¬ (c.utail = .hold ∧ c.ttail = .hol
   have i4 := udpStep_inv c s3 .u d2.1.1
   generalize udpStep .repaired c s3 .u = s4 at r4 i4
   exact ⟨by simpa [udpStep, UdpSt.returned] using r4, udpStep_inv c s4 .sa i4, by simp [udpStep]⟩
+
+theorem udpRunFast_eq (v : Variant) (c : UdpCase) (σ : List UTok) :
+    udpRunFast v c σ = udpRun v c (udpComplete c σ) := by
+  unfold udpRunFast udpRun udpComplete
+  simp only [repeatStep_eq (udpStep v c), List.foldl_append, List.foldl_cons, List.foldl_nil]
+
+theorem tcpRunFast_eq (A B : EP) (σ : List TTok) : tcpRunFast A B σ = tcpRun A B (tcpComplete A B σ) := by
+  unfold tcpRunFast tcpRun tcpComplete
+  simp only [repeatStep_eq (tcpStep A B), List.foldl_append, List.foldl_cons, List.foldl_nil]
 
 /-! ### from the invariants to the property predicate -/
 
